@@ -46,6 +46,8 @@ enum Stage {
     TypeInt,
     TypeString,
     TypeIntBool,
+    /// `$] ~`: collected (everything upstream is pulled when this stage is built), then enumerated
+    Snapshot,
 }
 
 #[derive(Clone, Copy, Debug, PartialEq)]
@@ -80,6 +82,8 @@ struct RefIter {
     source: Source,
     pos: usize,
     stages: Vec<Stage>,
+    /// per level: the array a Snapshot stage collected when it was built, and the read position
+    snapshots: Vec<Option<(Vec<V>, usize)>>,
 }
 
 impl RefIter {
@@ -148,6 +152,15 @@ impl RefIter {
                     return Some(V::I(i));
                 }
             },
+            Stage::Snapshot => {
+                let (buf, pos) = self.snapshots[level].as_mut().expect("snapshot stage built");
+                if *pos < buf.len() {
+                    *pos += 1;
+                    Some(buf[*pos - 1].clone())
+                } else {
+                    None
+                }
+            }
             Stage::TypeInt | Stage::TypeString | Stage::TypeIntBool => loop {
                 let x = self.pull_level(level - 1, log)?;
                 let keep = match (&x, stage) {
@@ -173,8 +186,18 @@ fn list(xs: &[V]) -> String {
 
 /// expected (result dump, log) by the sequence definitions
 fn reference(source: &Source, stages: &[Stage], consumer: Consumer, pulls: usize) -> (String, Vec<i64>) {
-    let mut it = RefIter { source: source.clone(), pos: 0, stages: stages.to_vec() };
+    let mut it = RefIter { source: source.clone(), pos: 0, stages: stages.to_vec(), snapshots: vec![None; stages.len() + 1] };
     let mut log = Vec::new();
+    // the stages are built in order; building a Snapshot stage drains everything below it
+    for level in 1..=stages.len() {
+        if stages[level - 1] == Stage::Snapshot {
+            let mut buf = Vec::new();
+            while let Some(x) = it.pull_level(level - 1, &mut log) {
+                buf.push(x);
+            }
+            it.snapshots[level] = Some((buf, 0));
+        }
+    }
     let int_of = |v: &V| if let V::I(i) = v { *i } else { unreachable!() };
     let result = match consumer {
         Consumer::Collect => {
@@ -286,6 +309,7 @@ fn stage_text(s: Stage) -> &'static str {
         Stage::TypeInt => " ? int",
         Stage::TypeString => " ? string",
         Stage::TypeIntBool => " ? int | bool",
+        Stage::Snapshot => " $] ~",
     }
 }
 
@@ -359,6 +383,15 @@ fn jobs(thorough: bool) -> Vec<Job> {
                     pipelines.push(vec![a, b, c]);
                 }
             }
+        }
+    }
+    // `$] ~` as a stage: alone, after and before each lazy stage
+    pipelines.push(vec![Stage::Snapshot]);
+    for a in int_stages {
+        pipelines.push(vec![a, Stage::Snapshot]);
+        pipelines.push(vec![Stage::Snapshot, a]);
+        if thorough {
+            pipelines.push(vec![a, Stage::Snapshot, a]);
         }
     }
     let mut sources: Vec<Source> = (0..=3).map(Source::Counter).collect();
